@@ -635,7 +635,8 @@ def run_history(ctx, history, pending, check_schedule=True):
         other = [dict(e, policy={"fifo": "lifo", "lifo": "rand", "rand": "fifo"}[e["policy"]]) for e in history]
         b = Audit(ctx, other)
         b.execute()
-        n1, n2 = set(a.snapshots[-1]["nodes"]), set(b.snapshots[-1]["nodes"])
+        if b.inexpressible:
+            return a
         # names are per audit; compare the digests instead (two runs of the real code, no model involved)
         d1, d2 = a.nodes_seen, b.nodes_seen
         ctx.count("schedule_pairs", "compared")
@@ -680,7 +681,7 @@ def run(ctx):
     pending = []
     for h in CORPUS:
         run_history(ctx, h, pending)
-    for _ in range(ctx.n(120, 1500)):
+    for _ in range(ctx.n(120, 1300)):
         run_history(ctx, gen_history(rng), pending)
     flush(ctx, pending)
 
